@@ -668,7 +668,7 @@ fn digits_of(radix: u32) -> Vec<char> {
     "0123456789abcdefABCDEF".chars().filter(|c| c.to_digit(16).unwrap() < radix).collect()
 }
 
-fn int_token() -> impl Strategy<Value = String> {
+fn int_token() -> impl Strategy<Value = String> + Clone + use<> {
     let radix = prop::sample::select(vec![10u32, 10, 10, 16, 16, 8, 2]);
     (
         prop::sample::select(vec!["", "", "-", "-", "+"]),
@@ -707,7 +707,7 @@ fn int_token() -> impl Strategy<Value = String> {
         })
 }
 
-fn near_boundary_token() -> impl Strategy<Value = String> {
+fn near_boundary_token() -> impl Strategy<Value = String> + Clone + use<> {
     (
         prop::sample::select(vec![7usize, 8, 15, 16, 31, 32, 63, 64, 127, 128]),
         -3i32..=3,
@@ -734,7 +734,7 @@ fn near_boundary_token() -> impl Strategy<Value = String> {
         })
 }
 
-fn float_token() -> impl Strategy<Value = String> {
+fn float_token() -> impl Strategy<Value = String> + Clone + use<> {
     (
         prop::sample::select(vec!["", "", "-", "+"]),
         "[0-9]{0,22}",
@@ -757,7 +757,7 @@ fn float_token() -> impl Strategy<Value = String> {
         })
 }
 
-fn mutated_core_token() -> impl Strategy<Value = String> {
+fn mutated_core_token() -> impl Strategy<Value = String> + Clone + use<> {
     let alphabet: Vec<char> = "0123456789abefxXoObB_+-.eE~ nulyst".chars().collect();
     (0usize..CORE.len(), 0u8..3, any::<u16>(), prop::sample::select(alphabet)).prop_map(|(i, op, pos, ch)| {
         let mut cs: Vec<char> = CORE[i].chars().collect();
@@ -779,7 +779,7 @@ fn mutated_core_token() -> impl Strategy<Value = String> {
     })
 }
 
-fn random_case() -> impl Strategy<Value = Case> {
+fn random_case() -> impl Strategy<Value = Case> + Clone + use<> {
     let text = prop_oneof![
         3 => int_token(),
         3 => near_boundary_token(),
@@ -839,7 +839,7 @@ fn wrapped_b64(bytes: &[u8], breaks: &[(u16, bool)]) -> String {
     o.trim_end_matches(['\n', ' ']).to_string()
 }
 
-fn random_binary_case() -> impl Strategy<Value = Case> {
+fn random_binary_case() -> impl Strategy<Value = Case> + Clone + use<> {
     (
         prop::collection::vec(any::<u8>(), 0..64),
         any::<bool>(),
@@ -1018,6 +1018,19 @@ impl Property for C06 {
         }
         Ok(())
     }
+    /// libFuzzer input: style, tag, target, then a token over the scalar alphabet (<= 24 characters)
+    fn fuzz_decode(data: &[u8]) -> Option<(&'static str, Case, bool)> {
+        let mut b = engine::Bytes::new(data);
+        let style = b.pick(&[Style::Plain, Style::Plain, Style::Plain, Style::Plain, Style::Single, Style::Double, Style::Literal, Style::Folded]);
+        let tag = b.pick(&[Tag::None, Tag::None, Tag::None, Tag::None, Tag::None, Tag::None, Tag::Str, Tag::Int, Tag::Float, Tag::Bool, Tag::Null, Tag::Binary, Tag::NonSpecific, Tag::Custom]);
+        let target = b.pick(&TARGETS);
+        const ALPHABET: &[u8] = b"0123456789abefxXoObB_+-.eE~ nulystiIfFaANTRrU:";
+        let text: String = b.take(24).iter().map(|x| ALPHABET[*x as usize % ALPHABET.len()] as char).collect();
+        let style = if representable(&text, style) { style } else { Style::Double };
+        let c = Case { text, style, tag, target };
+        let nt = nontrivial(&c);
+        Some(("fuzz-tokens", c, nt))
+    }
     fn generate(ctx: &mut Ctx<Self>) {
         let thorough = ctx.tier == Tier::Thorough;
         let mut idx = 0u64;
@@ -1133,4 +1146,10 @@ impl Property for C06 {
 
 fn main() {
     engine::main::<C06>()
+}
+
+/// entry point of the libFuzzer target `fuzz/fuzz_targets/c06.rs`
+#[allow(dead_code)]
+pub fn fuzz(data: &[u8]) {
+    engine::fuzz_one::<C06>(data)
 }
